@@ -467,9 +467,9 @@ def rule_condspec(ctx, prop: str) -> RuleResult:
          "unroll_buffer creates one scalar per index: the dimension must be a literal"),
         (("C01",), S_, "DoStageMem", "reject", "len(w_exprs)", "len(w_exprs) == len(buf_typ.shape())", ("w_exprs", "buf_typ"), None,
          "stage_mem: the window must give one coordinate per dimension of the buffer"),
-        (("C10", "C01"), NE_, "stmts_effs", "accept", "ReadConfig", "fa.type.is_numeric() and isinstance(a, LoopIR.ReadConfig)", ("fa", "a"), None,
-         "only a numeric (by-reference) configuration argument may be skipped when collecting the reads of a call; a control-typed "
-         "`Cfg.f` argument is a read of the field — without it delete_config/write_config/call_eqv consider the field unread"),
+        (("C10", "C01"), NE_, "stmts_effs", "accept", "LoopIR.Read", "fa.type.is_numeric() and isinstance(a, LoopIR.Read)", ("fa", "a"), "pass",
+         "only a numeric buffer argument (passed by reference: the callee's own accesses are translated to it) may be skipped when the reads of a call are "
+         "collected; a configuration field passed as an argument is a read of that field — without it delete_config/write_config/call_eqv consider the field unread"),
     ]
     n_rows = 0
     for props, file, qn, mode, marker, spec_src, locs, must, why in table2:
@@ -483,6 +483,13 @@ def rule_condspec(ctx, prop: str) -> RuleResult:
             if must != "flag":
                 cands = [n for n in cands if always_raises(n.body) or any(isinstance(x, ast.Call) and last_name(x) in ("err", "err_handler") for st in n.body for x in ast.walk(st))]
             must = None
+        strict = False
+        if mode == "accept" and must == "pass":
+            # the accepting branches are exactly those that skip (`pass`): each must imply the
+            # spec, whether or not it still shares an atom with it
+            cands = [n for n in cands if all(isinstance(st, ast.Pass) for st in n.body)]
+            must = None
+            strict = True
         if must is not None:
             cands = [n for n in cands if any(must in ast.unparse(st) for st in n.body)]
             if not cands:
@@ -507,39 +514,51 @@ def rule_condspec(ctx, prop: str) -> RuleResult:
                     raise AnalysisError(f"CONDSPEC row {qn}/{marker}: {len(cands)} condition(s) mention `{marker}` but none has the specified form `{spec_src[:60]}` (rewritten guard: re-confirm the row)")
                 break
             names = sorted({x.id for x in ast.walk(n.test) if isinstance(x, ast.Name)} - fixed)
-            best = None  # (shared atoms, ok, cex, spec text)
+            best = None
+            sp = to_form(ast.parse(spec_src, mode="eval").body)
             for perm in itertools.permutations(names, min(len(locs), len(names))):
-                ren = dict(zip(locs, perm))
+                # express the test in the row's own local names (so that reports and
+                # known-finding keys do not depend on how the code names its locals)
+                inv = dict(zip(perm, locs))
 
                 class Ren(ast.NodeTransformer):
                     def visit_Name(self, node):
-                        return ast.copy_location(ast.Name(id=ren.get(node.id, node.id), ctx=node.ctx), node)
+                        return ast.copy_location(ast.Name(id=inv.get(node.id, node.id), ctx=node.ctx), node)
 
-                sp_ast = Ren().visit(ast.parse(spec_src, mode="eval").body)
-                sp = to_form(sp_ast)
-                test = to_form(n.test)
+                import copy
+
+                t_ast = Ren().visit(copy.deepcopy(n.test))
+                test = to_form(t_ast)
                 shared = len(atoms(sp) & atoms(test))
-                if not shared:
+                if not shared and not strict:
                     continue
                 if mode == "cover":
-                    ok, cex = implies(sp, test)
+                    a, b = sp, test
                 else:
-                    ok, cex = implies(("not", test) if mode == "reject" else test, sp)
-                cand = (ok, shared, cex, ast.unparse(sp_ast))
+                    a, b = (("not", test) if mode == "reject" else test), sp
+                ok, cex = implies(a, b)
+                cand = (ok, shared, cex, a, b)
                 if best is None or (cand[0], cand[1]) > (best[0], best[1]):
                     best = cand
             if best is None:
                 continue  # another test that merely mentions the marker
-            ok, shared, cex, sp_txt = best
+            ok, shared, cex, a, b = best
             row_instances += 1
             res.instances += 1
             res.nontrivial += 1
             res.ob(ok)
             rel = "is implied by" if mode == "cover" else "implies"
-            res.sample(f"{qn}: `{ast.unparse(n.test)[:90]}` {rel} `{sp_txt[:80]}`: {ok}")
+            res.sample(f"{qn}: `{ast.unparse(n.test)[:90]}` {rel} `{spec_src[:80]}`: {ok}")
             if not ok:
+                from ..boolform import counterexamples
+                import hashlib
+
+                ways = sorted(",".join(f"{k}={v}" for k, v in sorted(e.items())) for e in counterexamples(a, b))
+                sig = ";".join(ways)
+                if len(sig) > 150:
+                    sig = sig[:110] + "…#" + hashlib.sha1(sig.encode()).hexdigest()[:8]
                 shown = ", ".join(f"{k}={v}" for k, v in sorted(cex.items()))
-                res.add(Finding("CONDSPEC", file, n.lineno, qn, marker, f"{why} (counter-assignment: {shown})"))
+                res.add(Finding("CONDSPEC", file, n.lineno, qn, f"{marker}|{sig}", f"{why} (counter-assignment: {shown})"))
     for props, file, qn, mode, marker, spec_src, why in table:
         if prop not in props:
             continue
